@@ -124,17 +124,6 @@ impl fmt::Write for Sink {
 
 #[kani::proof]
 #[kani::unwind(12)]
-fn c18_obs_debug_fresh_vec2() {
-    let it = Vec2::new(Tok::<S2>::new(0), Tok::<S2>::new(1)).into_iter();
-    let mut s = Sink(0);
-    let r = write!(s, "{:?}", it);
-    assert!(r.is_ok());
-    drop(it);
-    assert!(all_in_state::<S2>(0, 2, DROPPED));
-}
-
-#[kani::proof]
-#[kani::unwind(12)]
 fn c18_obs_debug_after_next_vec2() {
     let mut it = Vec2::new(Tok::<S2>::new(0), Tok::<S2>::new(1)).into_iter();
     let t = it.next().unwrap(); // slot 0 moved out
@@ -143,3 +132,37 @@ fn c18_obs_debug_after_next_vec2() {
     let r = write!(s, "{:?}", it); // derived Debug prints vector.x: reads slot 0
     assert!(r.is_ok());
 }
+
+// Debug after every history of 1..=N pulls (N = 2, 3, 4), and on fresh iterators.
+macro_rules! obs_debug {
+    ([$fresh:ident $pulled:ident] $V:ident $n:tt $u:tt $S:ident $SD:ident ($($f:tt)+) ($($id:tt)+)) => {
+        #[kani::proof]
+        #[kani::unwind(12)]
+        fn $fresh() {
+            let it = $V::new($(Tok::<$S>::new($id)),+).into_iter();
+            let mut s = Sink(0);
+            let r = write!(s, "{:?}", it);
+            assert!(r.is_ok());
+            drop(it);
+            assert!(all_in_state::<$S>(0, $n, DROPPED));
+        }
+
+        #[kani::proof]
+        #[kani::unwind(12)]
+        fn $pulled() {
+            let mut it = $V::new($(Tok::<$S>::new($id)),+).into_iter();
+            let mut front = 0usize;
+            let mut back = $n as usize;
+            history(&mut it, &mut front, &mut back, $n);
+            kani::assume(back - front < $n); // at least one element was yielded
+            let mut s = Sink(0);
+            let r = write!(s, "{:?}", it); // must not read a yielded slot
+            assert!(r.is_ok());
+            drop(it);
+            assert!(table_ok::<$S>($n, front, back, DROPPED));
+        }
+    };
+}
+spec!(Vec2, obs_debug, c18_obs_debug_fresh_vec2, c18_obs_debug_pulled_vec2);
+spec!(Vec3, obs_debug, c18_obs_debug_fresh_vec3, c18_obs_debug_pulled_vec3);
+spec!(Vec4, obs_debug, c18_obs_debug_fresh_vec4, c18_obs_debug_pulled_vec4);
